@@ -42,7 +42,7 @@ def run(cfg):
     return {
         "evaluations": n + meta.get("oracle_checked", 0),
         "distinct_nontrivial": meta.get("distinct_nontrivial", 0),
-        "rule": "EXHAUSTIVE over configurations x operations: all 5 languages x 6 locales x 13 operations (switch only; rename / move / delete ANOTHER sheet; rename a sheet the names mention; new sheet; rename a global cell name, a global range name, a LAMBDA name, a sheet-local name, rename to an identifier a formula already uses; to_bytes/from_bytes; xlsx export/import) on a workbook with global and sheet-local cell, range and LAMBDA names (6 variants: LAMBDA bodies with / without built-in functions, decimals, leading '='; one variant per scenario quick, all six thorough) and 10 cells that use them; observed in English: workbook.defined_names with the scope as a sheet name, and the stored values of the using cells; expectation = the names / values before with the operation's intended effect; every scenario also runs in en/en (twin) to separate language-specific from language-independent defects. Tie: RenameName.rename on every stored formula tree of the name operations plus 30 / 400 pool workbooks with 24 random formulas over the names. distinct_nontrivial = distinct (language, locale, operation, variant) scenarios",
+        "rule": "EXHAUSTIVE over configurations x operations: all 5 languages x 6 locales x 13 operations (switch only; rename / move / delete ANOTHER sheet; rename a sheet the names mention; new sheet; rename a global cell name, a global range name, a LAMBDA name, a sheet-local name, rename to an identifier a formula already uses; to_bytes/from_bytes; xlsx export/import) on a workbook with global and sheet-local cell, range and LAMBDA names (6 variants: LAMBDA bodies with / without built-in functions, decimals, leading '='; one variant per scenario quick, all six thorough) and 10 cells that use them; observed in English: workbook.defined_names with the scope as a sheet name, and the stored values of the using cells; expectation = the names / values before with the operation's intended effect; every scenario also runs in en/en (twin) to separate language-specific from language-independent defects. The full product of ONE update_defined_name: 5 names (global, sheet-local, a shadowing global/local pair, local elsewhere) x {name kept, 2 new names} x 4 new scopes x {formula kept, changed} with 12 using cells on three sheets: exactly the formulas that resolved to the old (name, scope) are rewritten, and the result equals the workbook built directly in the end state. Tie: stored tokens before -> RenameName.update_name_in_formula = stored tokens after (S lines); RenameName.rename on every stored formula tree of the name operations plus 30 / 400 pool workbooks with 24 random formulas over the names. distinct_nontrivial = distinct (language, locale, operation, variant) scenarios",
         "samples": meta.get("samples", []),
         "disagreements": dis, "n_disagreements": ndis,
         "oracle_failures": meta.get("oracle_failures", []),
